@@ -342,8 +342,8 @@ def r15_user_objects_in_the_settings_only_read(ctx, rid="C13.R15", why="the obje
 INPUT_TYPES = {"AlgorithmSettings": "settings", "Dataset": "dataset", "Data": "data", "OutputsSettings": "output settings", "DataFrame": "table"}
 
 
-def r4_inputs(ctx, cg):
-    ctx.rule("C13.R4", "no store through the caller's settings / dataset / data objects (algo, models, samplers packages)", 1)
+def r4_inputs(ctx, cg, rid="C13.R4"):
+    ctx.rule(rid, "no store through the caller's settings / dataset / data objects (algo, models, samplers packages)", 1)
     ix = ctx.ix
     n = 0
     for f in ix.iter_funcs():
@@ -370,7 +370,7 @@ def r4_inputs(ctx, cg):
                 r = root_name(t)
                 if isinstance(t, (ast.Attribute, ast.Subscript)) and r in params and r not in rebound:
                     n += 1
-                    ctx.violation("C13.R4", f, st, f"stores through the caller's {INPUT_TYPES[params[r]]} `{r}` ({params[r]}): the object passed in is modified, so reusing it changes the next call")
+                    ctx.violation(rid, f, st, f"stores through the caller's {INPUT_TYPES[params[r]]} `{r}` ({params[r]}): the object passed in is modified, so reusing it changes the next call")
         for c in ast.walk(f.node):
             if isinstance(c, ast.Call) and isinstance(c.func, ast.Attribute):
                 r = root_name(c.func.value)
@@ -382,7 +382,7 @@ def r4_inputs(ctx, cg):
                             (m in ("update", "pop", "clear", "setdefault", "append", "extend", "insert", "remove", "sort") and isinstance(c.func.value, (ast.Attribute, ast.Subscript))
                              and params[r] in ("AlgorithmSettings",)):
                         n += 1
-                        ctx.violation("C13.R4", f, c, f"`{U(c.func)}` mutates the caller's {INPUT_TYPES[params[r]]} `{r}`")
+                        ctx.violation(rid, f, c, f"`{U(c.func)}` mutates the caller's {INPUT_TYPES[params[r]]} `{r}`")
         # nested containers of the caller's settings reached through a local name (`vp = settings.parameters["visit_parameters"]`) are still the
         # caller's: a write through the local, or handing it to a function that writes through its parameter, modifies the object passed in
         sparams = {p_ for p_, t_ in params.items() if t_ == "AlgorithmSettings" and p_ not in rebound}
@@ -406,21 +406,21 @@ def r4_inputs(ctx, cg):
                 if isinstance(c, ast.Call) and isinstance(c.func, ast.Attribute) and isinstance(c.func.value, ast.Name) and c.func.value.id in alias \
                         and c.func.attr in ("update", "pop", "clear", "setdefault", "append", "extend", "insert", "remove", "sort", "popitem"):
                     n += 1
-                    ctx.violation("C13.R4", f, c, f"`{U(c)[:70]}` mutates `{alias[c.func.value.id]}` of the caller's settings through the local `{c.func.value.id}`")
+                    ctx.violation(rid, f, c, f"`{U(c)[:70]}` mutates `{alias[c.func.value.id]}` of the caller's settings through the local `{c.func.value.id}`")
             for st in statements(f.node):
                 for t in store_targets(st):
                     if isinstance(t, ast.Subscript) and isinstance(t.value, ast.Name) and t.value.id in alias:
                         n += 1
-                        ctx.violation("C13.R4", f, st, f"`{U(st)[:70]}` stores into `{alias[t.value.id]}` of the caller's settings through the local `{t.value.id}`")
+                        ctx.violation(rid, f, st, f"`{U(st)[:70]}` stores into `{alias[t.value.id]}` of the caller's settings through the local `{t.value.id}`")
             for site in cg.sites.get(f.key, []):
                 for tgt in site.targets:
                     for q, arg in StateWrites._bind_args(site.node, tgt):
                         is_alias = (isinstance(arg, ast.Name) and arg.id in alias) or (isinstance(arg, (ast.Attribute, ast.Subscript)) and nested(arg) and ".parameters" in U(arg))
                         if is_alias and q in mut.get(tgt.key, ()):
                             n += 1
-                            ctx.violation("C13.R4", f, site.node, f"`{U(site.node)[:70]}` hands `{alias.get(getattr(arg, 'id', None), U(arg))}` of the caller's settings to {tgt.qual}({q}=...), "
+                            ctx.violation(rid, f, site.node, f"`{U(site.node)[:70]}` hands `{alias.get(getattr(arg, 'id', None), U(arg))}` of the caller's settings to {tgt.qual}({q}=...), "
                                           "which writes through that parameter: the settings object passed in is modified")
-    ctx.ok("C13.R4", ("leaspy.algo.base", "<package>"), None, "no store / in-place call through settings, dataset, data or table parameters", construct="package-wide scan of stores rooted at input parameters")
+    ctx.ok(rid, ("leaspy.algo.base", "<package>"), None, "no store / in-place call through settings, dataset, data or table parameters", construct="package-wide scan of stores rooted at input parameters")
 
 
 def r5_shared_defaults(ctx, rid="C13.R5", scope=None, title=None):
